@@ -41,4 +41,38 @@ theorem C03_repeated_headers (env : Env) (a b : RSect) (wa : a.WF env) (wb : b.W
   rw [C03_parse_render env [a, b] (by intro s hs; simp at hs; rcases hs with rfl | rfl <;> assumption)]
   simp [eraseSects, addEntries, List.lookup, h]
 
+
+/-! ### before the first section header -/
+
+/-- white space before the first header is skipped, one character at a time -/
+theorem parseUnit_skip_ws (env : Env) (fuel : Nat) (u : Unit) (c : Char) (r : Str) (h : isAsciiWs c = true) :
+    parseUnit env (fuel + 1) u (c :: r) = parseUnit env fuel u r := by
+  have h1 : (c == '#' || c == ';') = false := by
+    unfold isAsciiWs at h
+    cases hc : (c == '#' || c == ';')
+    · rfl
+    · exfalso
+      simp only [Bool.or_eq_true, beq_iff_eq] at hc h
+      rcases hc with rfl | rfl <;> simp at h
+  have h2 : (c == '[') = false := by
+    unfold isAsciiWs at h
+    cases hc : (c == '[')
+    · rfl
+    · exfalso
+      simp only [beq_iff_eq] at hc
+      subst hc; simp at h
+  simp [parseUnit, h1, h2, h]
+
+/-- a comment line before the first header is skipped up to its newline -/
+theorem parseUnit_skip_comment (env : Env) (fuel : Nat) (u : Unit) (c : Char) (r : Str) (h : (c == '#' || c == ';') = true) :
+    parseUnit env (fuel + 1) u (c :: r) = parseUnit env fuel u (takeUntil (· == '\n') (c :: r)).2 := by
+  simp [parseUnit, h]
+
+/-- anything else before the first header — a key, text — makes the file invalid: nothing is read from it -/
+theorem C03_text_before_first_header_rejected (env : Env) (c : Char) (r : Str)
+    (h1 : (c == '#' || c == ';') = false) (h2 : (c == '[') = false) (h3 : isAsciiWs c = false) :
+    parse env (c :: r) = .error .topLevel := by
+  unfold parse
+  simp [parseUnit, h1, h2, h3]
+
 end Parse
